@@ -1385,6 +1385,48 @@ def namespace_cases(builtins_=('input', 'repr')):
     return res
 
 
+def blank_cases():
+    """texts made ONLY of characters str.isspace() / str.strip() call blank (the tokenizer accepts just space, tab, form
+    feed and the line ends): every such code point alone, doubled, in pairs, mixed with real blanks, with and without
+    a trailing newline, and as the only content of an indented block / after a colon; the E01 oracle decides"""
+    import sys
+    blanks = [chr(c) for c in range(sys.maxunicode + 1) if chr(c).isspace()]
+    real = [' ', '\t', '\x0c', '\n', '\r', '\r\n']
+    out = []
+    seen = set()
+
+    def add(label, text, files=None):
+        if text in seen:
+            return
+        seen.add(text)
+        out.append(_case('blank:%s:%s' % (label, '+'.join('%04x' % ord(c) for c in text[:6]) + ('...' if len(text) > 6 else '')), text))
+    for ch in blanks:
+        for label, t in (('alone', ch), ('newline-after', ch + '\n'), ('doubled', ch + ch), ('space-before', ' ' + ch), ('space-after', ch + ' '),
+                         ('tab-before-newline-after', '\t' + ch + '\n'), ('newline-before', '\n' + ch), ('between-newlines', '\n' + ch + '\n'),
+                         ('formfeed-before', '\x0c' + ch), ('crlf-after', ch + '\r\n'), ('lines-of-spaces-around', '\n\n   ' + ch + '\n'),
+                         ('after-spaces-then-code', '  ' + ch + '\nx = 1\n'), ('after-code', 'x = 1\n' + ch), ('after-code-newline', 'x = 1\n' + ch + '\n'),
+                         ('code-line-end', 'x = 1' + ch + '\n'), ('comment-only-after', ch + '# c\n')):
+            add(label, t)
+        # as the only content of a block / after a colon
+        for label, t in (('block-body', 'if x:\n    ' + ch + '\n'), ('block-body-no-newline', 'if x:\n    ' + ch), ('block-body-then-code', 'def f():\n    ' + ch + '\n    return 1\n'),
+                         ('after-colon', 'if x:' + ch), ('after-colon-newline', 'if x:' + ch + '\n    pass\n'), ('after-colon-same-line', 'if x:' + ch + 'pass\n'),
+                         ('class-body', 'class A:\n' + ch + '\n'), ('indent-is-the-char', 'if x:\n' + ch + 'pass\n'),
+                         ('between-blocks', 'if x:\n    pass\n' + ch + '\nelse:\n    pass\n'), ('in-brackets', 'x = (' + ch + '1,\n' + ch + ')\n')):
+            add(label, t)
+    odd = [c for c in blanks if c not in real]
+    for i, a in enumerate(odd):
+        for b_ in odd[i + 1:i + 4] + odd[:1]:
+            add('pair', a + b_)
+            add('pair-lines', a + '\n' + b_ + '\n')
+    add('all-odd', ''.join(odd))
+    add('all-odd-lines', '\n'.join(odd) + '\n')
+    add('all-blanks', ''.join(blanks))
+    # genuinely blank controls
+    for t in ('', ' ', '\t', '\x0c', '\n', '\r', '\r\n', '   \n\t\n\x0c\n', ' \x0c ', '\n\n\n', '  \n  ', '\x0c\n\x0c', ' \t \r\n \r', '\\\n', ' \\\n '):
+        add('control', t)
+    return out
+
+
 _FAMILY_CACHE = {}
 
 
@@ -1428,6 +1470,8 @@ def _family(name, tier='quick'):
         return flatscope_cases((100, 200, 400)) + flatscope_cases((1000,), ('if-reads', 'if-constant', 'try', 'for'))
     if name == 'namespace':
         return namespace_cases()
+    if name == 'blank':
+        return blank_cases()
     if name == 'chains':
         if tier == 'quick':
             return chain_cases()
